@@ -37,25 +37,24 @@ def dump_runtime_mir():
 
 
 def summarize_primitives(smir):
-    """Abstract execution of read / write / get / get_mut: where does the accessed pointer come from
-    (shared or mutable borrow of the buffer) and which access is performed on it."""
+    """Abstract execution of read / write / get / get_mut (inter-procedural for helpers defined in the same
+    crate): where does the accessed pointer come from (shared or mutable borrow of the buffer) and which
+    access is performed on it."""
     if MIRSYM not in sys.path:
         sys.path.insert(0, MIRSYM)
     import mirparse as mp
     funcs = mp.parse_file(smir)
-    out = {}
-    for prim in ("read", "write", "get", "get_mut"):
-        f = None
+
+    def find(name_re):
         for name, fn in funcs.items():
-            if re.match(r"^RecordMaybeUninit::<CAP>::%s$" % prim, name) or name.endswith("::%s" % prim) and "RecordMaybeUninit" in fn.header:
-                f = fn
-                break
-        if f is None:
-            out[prim] = dict(error="MIR of the primitive not found")
-            continue
-        vals = {}     # local -> dict(kind='ptr', perm, offset_uses_arg)
+            if re.search(name_re, name):
+                return fn
+        return None
+
+    def run(f, argvals, depth, sinks):
+        """argvals: dict param-local -> abstract pointer value. Returns abstract value of _0 (or None)."""
+        vals = dict(argvals)
         self_mut = f.local_types.get(1, "").startswith("&mut")
-        sinks = []
         work = [0]
         seen = set()
         while work:
@@ -68,8 +67,6 @@ def summarize_primitives(smir):
                 try:
                     st = mp.parse_stmt(text)
                 except Exception:
-                    # a statement the MIR parser does not understand: if it mentions the buffer, the
-                    # summary is incomplete
                     if "(*_1)" in text:
                         m_ = re.match(r"\s*_(\d+) = (&mut |&)", text)
                         if m_:
@@ -83,16 +80,20 @@ def summarize_primitives(smir):
                     if not isinstance(dest, mp.Local):
                         continue
                     if isinstance(rv, mp.RefOf):
-                        # borrow of the buffer field of *self, or a reborrow / deref of a tracked pointer
                         base = rv.p
                         if isinstance(base, mp.Index):
                             base = base.p
-                        if isinstance(base, mp.Field) and isinstance(base.p, mp.Deref) and isinstance(base.p.p, mp.Local) and base.p.p.n == 1:
-                            vals[dest.n] = dict(perm="mut" if (rv.mut and self_mut) else "shared", via="&mut self.data" if rv.mut else "&self.data")
+                        if isinstance(base, mp.Field) and isinstance(base.p, mp.Deref) and isinstance(base.p.p, mp.Local) and (base.p.p.n == 1 or base.p.p.n in vals):
+                            src_self = vals.get(base.p.p.n)
+                            outer_mut = self_mut if src_self is None else (src_self.get("perm") == "mut")
+                            vals[dest.n] = dict(perm="mut" if (rv.mut and outer_mut) else "shared", via="&mut self.data" if rv.mut else "&self.data")
                         elif isinstance(base, mp.Deref) and isinstance(base.p, mp.Local) and base.p.n in vals:
                             src = vals[base.p.n]
-                            sinks.append(dict(op="&mut *p" if rv.mut else "&*p", perm=src["perm"], needs_mut=bool(rv.mut), aligned=True, via=src.get("via")))
-                            vals[dest.n] = dict(src)
+                            if src.get("kind") == "self":
+                                vals[dest.n] = dict(src, perm="mut" if (rv.mut and src["perm"] == "mut") else "shared")
+                            else:
+                                sinks.append(dict(op="&mut *p" if rv.mut else "&*p", perm=src["perm"], needs_mut=bool(rv.mut), aligned=True, via=src.get("via")))
+                                vals[dest.n] = dict(src)
                     elif isinstance(rv, (mp.Move, mp.Copy)) and isinstance(rv.p, mp.Local) and rv.p.n in vals:
                         vals[dest.n] = dict(vals[rv.p.n])
                     elif isinstance(rv, mp.Cast) and isinstance(rv.a, (mp.Move, mp.Copy)) and isinstance(rv.a.p, mp.Local) and rv.a.p.n in vals:
@@ -101,19 +102,36 @@ def summarize_primitives(smir):
                     cl = st[1]
                     callee = mp.strip_generics(cl.callee)
                     args = [a.p.n if isinstance(a, (mp.Move, mp.Copy)) and isinstance(a.p, mp.Local) else None for a in cl.args]
+                    tracked = [i for i, a in enumerate(args) if a in vals]
                     src = vals.get(args[0]) if args and args[0] in vals else None
                     dn = cl.dest.n if isinstance(cl.dest, mp.Local) else None
-                    if src is not None:
+                    helper = None
+                    if tracked and depth < 4:
+                        last = callee.split("::")[-1]
+                        helper = find(r"(^|::)%s$" % re.escape(last)) if ("RecordMaybeUninit" in callee or callee.count("::") <= 1) else None
+                        if helper is not None and helper is f:
+                            helper = None
+                    if helper is not None and src is not None:
+                        sub = {}
+                        for i, a in enumerate(args):
+                            if a in vals:
+                                sub[i + 1] = dict(vals[a])
+                        rv_ = run(helper, sub, depth + 1, sinks)
+                        if rv_ is not None and dn is not None:
+                            vals[dn] = rv_
+                    elif src is not None:
                         if callee.endswith("::as_mut_ptr"):
-                            vals[dn] = dict(src, via=src.get("via", "") + ".as_mut_ptr()")
+                            vals[dn] = dict(src, kind="ptr", via=src.get("via", "") + ".as_mut_ptr()")
                         elif callee.endswith("::as_ptr"):
-                            vals[dn] = dict(src, perm="shared", via=src.get("via", "") + ".as_ptr()")
+                            vals[dn] = dict(src, kind="ptr", perm="shared", via=src.get("via", "") + ".as_ptr()")
                         elif re.search(r"::(add|offset|byte_add|wrapping_add|cast|cast_mut|cast_const)$", callee):
                             vals[dn] = dict(src)
                         elif re.search(r"(^|::)(write|write_unaligned|write_volatile)$", callee):
                             sinks.append(dict(op=callee.split("::")[-1], perm=src["perm"], needs_mut=True, aligned="unaligned" not in callee, via=src.get("via")))
                         elif re.search(r"(^|::)(read|read_unaligned|read_volatile)$", callee):
                             sinks.append(dict(op=callee.split("::")[-1], perm=src["perm"], needs_mut=False, aligned="unaligned" not in callee, via=src.get("via")))
+                        elif re.search(r"::(as_ref|as_mut|get|get_mut)$", callee) and "UnsafeCell" in callee:
+                            vals[dn] = dict(src, perm="mut" if ("get_mut" in callee and src["perm"] == "mut") or callee.endswith("::get") else src["perm"], via=src.get("via", "") + ".UnsafeCell")
                         elif re.search(r"::(as_ref|as_mut)$", callee) or "Deref" in callee:
                             vals[dn] = dict(src)
                         elif re.search(r"copy_nonoverlapping|copy$", callee):
@@ -128,6 +146,19 @@ def summarize_primitives(smir):
                 elif st[0] in ("assert", "drop"):
                     succ.append(st[-1])
             work += [x for x in succ if x is not None]
+        return vals.get(0)
+
+    out = {}
+    for prim in ("read", "write", "get", "get_mut"):
+        f = find(r"^RecordMaybeUninit::<CAP>::%s$" % prim)
+        if f is None:
+            out[prim] = dict(error="MIR of the primitive not found")
+            continue
+        sinks = []
+        self_mut = f.local_types.get(1, "").startswith("&mut")
+        run(f, {1: dict(kind="self", perm="mut" if self_mut else "shared", via="&mut self" if self_mut else "&self")}, 0, sinks)
+        if not sinks:
+            sinks.append(dict(op="no access found", perm="shared", needs_mut=None, aligned=None, via=None))
         out[prim] = dict(sinks=sinks)
     return out
 
